@@ -285,6 +285,36 @@ def runLine (prop tiS toS lineS extS implS : String) : Result :=
     judge prop s!"line ti=[{tiS}] to=[{toS}] in={lineS}" (jlLine env ti to line) implS (colsOf toS) line
   | _, _, _ => ⟨"B", "cannot parse templates or line"⟩
 
+/-- `shortw`: a row exported to a writer that takes only part of the line. Oracle (C01: "reaches the writer as one
+    complete write"): exactly one slice is offered, it is the whole line the model writes, and a short write is a
+    failed export. -/
+def runShortWrite (toS valS extS implS : String) : Result :=
+  let env : Env := ⟨drvTables, parseExt extS⟩
+  if implS.startsWith "panic" then ⟨"P", s!"shortw to=[{toS}] v=[{valS}]: {implS} violates C01: key=panic"⟩ else
+  match tmplOf env toS, Dyn.parse? valS with
+  | some to, some v =>
+    let fields := (toks implS).filterMap fun t => match t.splitOn "=" with | [k, x] => some (k, x) | _ => none
+    let get (k : String) : Option String := (fields.find? fun kv => kv.1 == k).map Prod.snd
+    match (get "calls").bind String.toNat?, get "ret", get "short", (get "first").bind unhexTok with
+    | some calls, some ret, some short, some first =>
+      let p : Option String :=
+        if calls > 1 then some "line-offered-in-pieces"
+        else if short == "true" && ret == "ok" then some "short-write-unreported"
+        else none
+      match exportLine env to v with
+      | .ok (b, none) =>
+        let d := calls != 1 || first != b
+        (match d, p with
+         | false, none => ⟨"S", ""⟩
+         | true, none => ⟨"D", s!"shortw to=[{toS}] v=[{valS}]: impl [{implS}] model [one write of {hexTok b}]"⟩
+         | _, some c => ⟨(if d then "D" else "") ++ "P", s!"shortw to=[{toS}] v=[{valS}]: impl [{implS}] violates C01: key={c}"⟩)
+      | .ok (_, some _) =>
+        if calls == 0 then ⟨"S", ""⟩ else ⟨"P", s!"shortw to=[{toS}] v=[{valS}]: impl [{implS}] violates C01: key=bytes-written-for-a-row-that-does-not-render"⟩
+      | .err .ext => (match p with | some c => ⟨"P", s!"shortw: impl [{implS}] violates C01: key={c}"⟩ | none => ⟨"X", "model abstains"⟩)
+      | _ => ⟨"D", "shortw: model error"⟩
+    | _, _, _, _ => ⟨"B", s!"cannot parse shortw observation: {implS}"⟩
+  | _, _ => ⟨"B", "cannot parse shortw case"⟩
+
 def runEmit (prop toS valS extS implS : String) : Result :=
   let env : Env := ⟨drvTables, parseExt extS⟩
   match tmplOf env toS, Dyn.parse? valS with
